@@ -49,4 +49,7 @@ theorem crash_restores_exactly_last_sync (f : File) (pre post : List Op) (h : ‚à
 example : (crash (run ‚ü®[], []‚ü© [.writeAt 0 [1, 2, 3]])).data = [] := by decide
 example : (crash (run ‚ü®[], []‚ü© (srvWrite 0 [1, 2, 3] ++ [.writeAt 1 [9]]))).data = [1, 2, 3] := by decide
 
+/-- regenerated from the source on every run: COMMIT returns an error when it cannot open the file for the flush -/
+theorem gen_commit_open_failure : Gen.commitFailsWhenOpenFails = true := by decide
+
 end Props.C22
